@@ -50,13 +50,15 @@ type Task struct {
 	steps   int
 	holding int // number of sim locks held (diagnostics)
 	tok     *Token
+	epoch   int // process incarnation the task belongs to (see Crash/ResetCrash)
 }
 
 // Token carries a deterministic identity from a parent to the goroutine it starts.
 type Token struct {
-	key  string
-	site string
-	used int
+	key   string
+	site  string
+	used  int
+	epoch int
 }
 
 // Event is one scheduling decision.
@@ -127,6 +129,9 @@ type Sim struct {
 	last      *Task
 	victim    int
 	nonBaton  int
+	epochN    int // current process incarnation; tasks of older ones are zombies
+	stallRate int // one step in stallRate starts with a stall of all runnable tasks (0 = never)
+	nStall    int
 
 	KeepLog bool
 	OnStep  func()                  // controller-side invariant hook, called at quiescence after every step
@@ -186,9 +191,17 @@ func newSim(tp *Tape) *Sim {
 		s.pctChange[i] = 1 + tp.draw(4000)
 	}
 	s.victim = tp.draw(8)
+	// CPU starvation: in some runs every runnable task is occasionally held back for a
+	// while (a loaded machine, a GC or VM pause), so that timers of sleeping tasks fire
+	// although something was runnable - otherwise a runnable task would always run
+	// before the clock moves, and "the ticker fired between these two steps" would be
+	// unreachable.
+	s.stallRate = [...]int{0, 0, 0, 200, 50, 15}[tp.draw(6)]
 	cur = s
 	return s
 }
+
+var stallDurations = [...]time.Duration{200 * time.Microsecond, 2 * time.Millisecond, 20 * time.Millisecond, 150 * time.Millisecond, 1100 * time.Millisecond, 3 * time.Second}
 
 //go:norace
 func (s *Sim) lookup(g uint64) *Task {
@@ -225,10 +238,10 @@ func Spawn(site string) *Token {
 	p := s.lookup(gid())
 	var tok *Token
 	if p == nil {
-		tok = &Token{key: "?", site: site}
+		tok = &Token{key: "?", site: site, epoch: s.epochN}
 	} else {
 		p.nspawn++
-		tok = &Token{key: p.key + "/" + strconv.Itoa(p.nspawn), site: site}
+		tok = &Token{key: p.key + "/" + strconv.Itoa(p.nspawn), site: site, epoch: p.epoch}
 	}
 	s.mu.Unlock()
 	raceOn()
@@ -264,7 +277,18 @@ func Enter(tok *Token, site string) {
 		raceOn()
 		return
 	}
-	t = &Task{gid: g, grant: make(chan struct{}), mwake: make(chan struct{}, 1), name: site, tok: tok}
+	t = &Task{gid: g, grant: make(chan struct{}), mwake: make(chan struct{}, 1), name: site, tok: tok, epoch: s.epochN}
+	if tok != nil {
+		t.epoch = tok.epoch
+	}
+	if t.epoch < s.epochN || s.crashed {
+		// started by a goroutine of a dead process incarnation: never runs
+		t.unwind = true
+		t.dead = true
+		s.mu.Unlock()
+		raceOn()
+		panic(crashSentinel{})
+	}
 	if tok != nil && tok.key != "?" {
 		tok.used++
 		t.key = tok.key
@@ -303,7 +327,7 @@ func Done(tok *Token) {
 		return
 	}
 	if r != nil {
-		if _, ok := r.(crashSentinel); !ok {
+		if _, ok := r.(crashSentinel); !ok && !s.crashed && !Dead() {
 			site := "?"
 			if tok != nil {
 				site = tok.site
@@ -343,7 +367,19 @@ func Yield(label string) {
 	raceOff()
 	s.mu.Lock()
 	t := s.lookup(gid())
-	if t == nil || t == s.root || t.atomic > 0 || t.unwind {
+	if t == nil || t == s.root || t.unwind {
+		s.mu.Unlock()
+		raceOn()
+		return
+	}
+	if t.epoch < s.epochN {
+		// a goroutine of a dead process incarnation woke up (timer, channel): unwind it
+		t.unwind = true
+		s.mu.Unlock()
+		raceOn()
+		panic(crashSentinel{})
+	}
+	if t.atomic > 0 {
 		s.mu.Unlock()
 		raceOn()
 		return
@@ -361,6 +397,54 @@ func Yield(label string) {
 	if t.unwind {
 		panic(crashSentinel{})
 	}
+}
+
+// CrashHere is called by a task (from the vfs or network seam) that has
+// decided that the process dies at this very point: the world freezes, the
+// task parks and is unwound by Sim.Crash like every other parked task.
+//
+//go:norace
+func CrashHere(label string) {
+	s := cur
+	if s == nil {
+		return
+	}
+	raceOff()
+	s.mu.Lock()
+	s.crashed = true
+	t := s.lookup(gid())
+	if t != nil {
+		t.atomic = 0
+	}
+	s.mu.Unlock()
+	raceOn()
+	Yield(label)
+}
+
+// Dead reports whether the calling goroutine belongs to a process that has
+// died: the world is frozen (between Crash and ResetCrash) or the goroutine is
+// a leftover of an earlier incarnation. The vfs and network seams refuse to do
+// anything for dead callers.
+//
+//go:norace
+func Dead() bool {
+	s := cur
+	if s == nil {
+		return false
+	}
+	if s.crashed {
+		return true
+	}
+	if s.epochN == 0 {
+		return false
+	}
+	raceOff()
+	s.mu.Lock()
+	t := s.lookup(gid())
+	d := t != nil && t != s.root && t.epoch < s.epochN
+	s.mu.Unlock()
+	raceOn()
+	return d
 }
 
 // Sleep is time.Sleep followed by a yield (harness and environment code).
@@ -428,6 +512,13 @@ func Draw(tag string, n int) int {
 	}
 	raceOff()
 	s.mu.Lock()
+	if s.crashed || s.epochN > 0 {
+		if t := s.lookup(gid()); t != nil && t != s.root && (s.crashed || t.unwind || t.epoch < s.epochN) {
+			s.mu.Unlock()
+			raceOn()
+			return 0
+		}
+	}
 	if s.running != nil {
 		if g := gid(); g != s.running.gid && g != s.root.gid {
 			s.nonBaton++
@@ -598,6 +689,13 @@ func (s *Sim) step(deadline time.Time) bool {
 		// real code takes time: let 1..50us pass before the next step
 		time.Sleep(time.Duration(1+s.tape.draw(50)) * time.Microsecond)
 		synctest.Wait()
+		if s.stallRate > 0 && s.tape.draw(s.stallRate) == 0 {
+			// hold every runnable task back: timers that expire meanwhile fire one after the
+			// other (the bubble quiesces between two of them) and their goroutines park too
+			s.nStall++
+			time.Sleep(stallDurations[s.tape.draw(len(stallDurations))])
+			synctest.Wait()
+		}
 		s.mu.Lock()
 		select {
 		case <-s.wake:
@@ -764,7 +862,17 @@ func IsCrashed() bool {
 }
 
 // ResetCrash lets the harness "restart the process" in the same bubble.
-func (s *Sim) ResetCrash() { s.crashed = false }
+//
+// Goroutines of the dead incarnation that are still blocked somewhere become
+// zombies: when one wakes up it is unwound at its next yield, its draws do not
+// touch the tape and the vfs / network seams ignore it.
+func (s *Sim) ResetCrash() {
+	s.mu.Lock()
+	s.crashed = false
+	s.epochN++
+	s.root.epoch = s.epochN
+	s.mu.Unlock()
+}
 
 // ---- violations, probes, faults ---------------------------------------------------
 
@@ -859,6 +967,10 @@ func (s *Sim) Blocked() []*Task {
 	}
 	return out
 }
+
+// WaitingForLock reports whether the task is blocked waiting for a sim mutex
+// (as opposed to a channel operation, a timer, ...). Controller only, at quiescence.
+func (t *Task) WaitingForLock() bool { return t.waitM != nil || t.waitRW != nil }
 
 func (t *Task) Key() string   { return t.key }
 func (t *Task) Name() string  { return t.name }
